@@ -631,17 +631,20 @@ def _api_guard(stmts, raw, expected):
     return None
 
 
-def _predicted(stmts, raw, expected, order, drop=()):
+def _predicted(stmts, raw, expected, order, drop=(), clone=False):
     """the pairs `new` can find, row by row in creation order: a referred row is found through its identifying
     attributes AS READ from the instance at that moment, i.e. through the links made so far (open finding
     api-dangling-chained-key: an identifying attribute that is itself referential reads None when the row's own
     reference is dangling or null — or was not found for the same reason); `drop`: rows whose own links are taken to
     be missing (their `new` was aborted)"""
     pos = dict((i, k) for k, i in enumerate(order))
+    pos0 = dict((i, i) for i in order)          # storage order of the loaded metamodel: statement order
     made = dict((ai, set()) for ai in expected)
     for s in order:
         for ai in sorted(expected):
             a = stmts[ai]
+            if clone and any(_reads(stmts, raw, expected, pos0, s, sk) != raw[s].get(sk) for sk in a['skeys']):
+                continue        # clone passes what it READS from the loaded instance: None for such an attribute
             for (s2, t) in sorted(expected[ai]):
                 if s2 != s or pos.get(t, len(order)) >= pos[s]:
                     continue
@@ -711,7 +714,7 @@ def _check_api(route, stmts, raw, order, dump, outcomes, expected, fail, modelle
     under that finding's signature (KNOWN-FINDING); anything else is a failure."""
     links = _api_links(stmts, order, dump)
     try:
-        pred = _predicted(stmts, raw, expected, order)
+        pred = _predicted(stmts, raw, expected, order, (), route == 'clone')
     except _Cyclic:
         return 'cyclic'
     out_of = dict((order[k], str(o)) for k, o in enumerate(outcomes))
@@ -742,7 +745,7 @@ def _check_api(route, stmts, raw, order, dump, outcomes, expected, fail, modelle
     # a row whose new() was aborted by a justified RelateException may lack any of its own links: what the others
     # read through it lies between "all of them" (pred) and "none of them" (pred_lo)
     aborted = set(s_ for s_ in rel_rows if justified(s_))
-    pred_lo = _predicted(stmts, raw, expected, order, aborted) if aborted else pred
+    pred_lo = _predicted(stmts, raw, expected, order, aborted, route == 'clone') if aborted else pred
     for ai, (f, b) in sorted(links.items()):
         a = stmts[ai]
         want = pred[ai]
